@@ -804,9 +804,21 @@ Proof.
   - destruct (lnat_eqb k x) eqn:E; [apply lnat_eqb_eq in E; congruence|exact IH].
 Qed.
 
+Lemma sets_consec_iff F res :
+  (forall s, In s res -> In s F) ->
+  (sets_consec F res = true <-> forall v, Interval (fun s => In v s) res).
+Proof.
+  intros Hincl. unfold sets_consec. rewrite forallb_forall. split.
+  - intros Hi v. destruct (in_dec Nat.eq_dec v (concat F)) as [Hv|Hv].
+    + apply (contig01_map (memn v) (fun s => In v s) (fun s => memn_iff v s)). apply Hi. now apply nodup_In.
+    + exists res, [], []. rewrite app_nil_r. repeat split; try constructor.
+      apply Forall_forall. intros s Hs Hvs. apply Hv. apply in_concat. exists s. split; [now apply Hincl|exact Hvs].
+  - intros Hi v _. apply (contig01_map (memn v) (fun s => In v s) (fun s => memn_iff v s)). apply Hi.
+Qed.
+
 Theorem sets_check_correct F res : sets_check F res = true <-> SetsOK F res.
 Proof.
-  unfold sets_check, SetsOK. rewrite andb_true_iff, !forallb_forall.
+  unfold sets_check, SetsOK. rewrite andb_true_iff, forallb_forall.
   rewrite (Permutation_count_occ (list_eq_dec Nat.eq_dec)). split.
   - intros [Hc Hi]. assert (HP : forall x, count_occ (list_eq_dec Nat.eq_dec) F x = count_occ (list_eq_dec Nat.eq_dec) res x).
     { intros x. destruct (in_dec (list_eq_dec Nat.eq_dec) x (F ++ res)) as [Hin|Hnin].
@@ -815,22 +827,23 @@ Proof.
         assert (H2 : ~ In x res) by (intros H2; apply Hnin, in_or_app; now right).
         apply (count_occ_not_In (list_eq_dec Nat.eq_dec)) in H1.
         apply (count_occ_not_In (list_eq_dec Nat.eq_dec)) in H2. congruence. }
-    split; [exact HP|]. intros v.
-    destruct (in_dec Nat.eq_dec v (concat F)) as [Hv|Hv].
-    + apply (contig01_map (memn v) (fun s => In v s) (fun s => memn_iff v s)). now apply Hi.
-    + exists res, [], []. rewrite app_nil_r. repeat split; try constructor.
-      apply Forall_forall. intros s Hs Hvs. apply Hv. apply in_concat. exists s. split; [|exact Hvs].
-      apply (Permutation_count_occ (list_eq_dec Nat.eq_dec)) in HP.
-      eapply Permutation_in; [apply Permutation_sym; exact HP|exact Hs].
+    split; [exact HP|]. apply (sets_consec_iff F res); [|exact Hi].
+    intros s Hs. apply (Permutation_count_occ (list_eq_dec Nat.eq_dec)) in HP.
+    eapply Permutation_in; [apply Permutation_sym; exact HP|exact Hs].
   - intros [HP Hi]. split.
     + intros x _. apply Nat.eqb_eq. rewrite !countk_count_occ. apply HP.
-    + intros v _. apply (contig01_map (memn v) (fun s => In v s) (fun s => memn_iff v s)). apply Hi.
+    + apply (sets_consec_iff F res); [|exact Hi].
+      intros s Hs. apply (Permutation_count_occ (list_eq_dec Nat.eq_dec)) in HP.
+      eapply Permutation_in; [apply Permutation_sym; exact HP|exact Hs].
 Qed.
 
 Theorem sets_decide_correct F : sets_decide F = true <-> exists res, SetsOK F res.
 Proof.
-  unfold sets_decide. rewrite (exists_perm_dec _ (SetsOK F) _ (sets_check_correct F)).
-  split; intros (r & H); exists r; [apply H|split; [apply H|exact H]].
+  unfold sets_decide. rewrite existsb_exists. split.
+  - intros (res & Hin & Hc). apply perms_iff in Hin. exists res. split; [exact Hin|].
+    apply (sets_consec_iff F res); [|exact Hc]. intros s Hs. eapply Permutation_in; [apply Permutation_sym; exact Hin|exact Hs].
+  - intros (res & HP & Hi). exists res. split; [now apply perms_iff|].
+    apply (sets_consec_iff F res); [|exact Hi]. intros s Hs. eapply Permutation_in; [apply Permutation_sym; exact HP|exact Hs].
 Qed.
 
 Lemma ref_reorder_contract : reorder_contract (fun F => find (sets_check F) (perms F)).
